@@ -35,7 +35,7 @@ Proof. intros c. apply quorum_size_majority. Qed.
 Example C09_nontrivial :
   let cfg := [mkSrv 0 1 1; mkSrv 0 2 2; mkSrv 0 3 3; mkSrv 1 4 4] in
   let P := mkP 1 false false false 100 4 (fun _ => cfg) in
-  let s := mkNS 3 0 None ∅ 0 0 [] 2 3 0 0 4 2 0 0 cfg 1 cfg 1 1 1 false [] in
+  let s := mkNS 3 0 None ∅ 0 0 [] 2 3 0 0 4 2 0 0 cfg 1 cfg 1 1 1 false [] (0, 0) in
   verify_leader P s = (1, 2, false, [2; 3]) /\
   verify_session 1 2 [true] = (2, Some true) /\ verify_session 1 2 [false; true] = (1, Some false).
 Proof. vm_compute. repeat split. Qed.
